@@ -154,3 +154,90 @@ def in_fragment(fd: dict) -> bool:
 def strip_docstrings(fd: dict) -> dict:
     body = [s for s in fd["body"] if not (s["k"] == "expr" and s["e"].get("k") == "const")]
     return {**fd, "body": body}
+
+
+# ---------------------------------------------------------------------------------
+# inlining of helper functions (IR -> IR); validated against the source by T1
+# ---------------------------------------------------------------------------------
+
+
+class NotInlinable(Exception):
+    pass
+
+
+def subst(t, env: dict):
+    """Replace free names by the expressions bound in env (all IR binders are statements, handled by the caller)."""
+    if isinstance(t, dict):
+        if t.get("k") == "name" and t["n"] in env:
+            return env[t["n"]]
+        if t.get("k") == "const":
+            return t
+        return {k: subst(v, env) for k, v in t.items()}
+    if isinstance(t, list):
+        return [subst(v, env) for v in t]
+    return t
+
+
+def block_to_expr(stmts: list, env: dict) -> dict:
+    """The value returned by a straight-line/if block as ONE expression: assignments are substituted, an `if`
+    becomes a conditional expression over the two continuations.  Pure, total programs only; evaluation order of
+    errors may differ (an unused erroneous assignment disappears)."""
+    if not stmts:
+        return const(None)
+    s, rest = stmts[0], stmts[1:]
+    k = s["k"]
+    if k == "ret":
+        return subst(s["e"], env)
+    if k == "assign":
+        return block_to_expr(rest, {**env, s["x"]: subst(s["e"], env)})
+    if k == "aug":
+        cur = env.get(s["x"], {"k": "name", "n": s["x"]})
+        return block_to_expr(rest, {**env, s["x"]: {"k": "bin", "op": s["op"], "a": cur, "b": subst(s["e"], env)}})
+    if k == "if":
+        return {"k": "ifexp", "c": subst(s["c"], env), "a": block_to_expr(s["body"] + rest, env),
+                "b": block_to_expr(s["orelse"] + rest, env)}
+    if k == "expr" and s["e"].get("k") == "const":
+        return block_to_expr(rest, env)
+    raise NotInlinable(s.get("w", k))
+
+
+def inline_calls(t, helpers: dict, depth: int = 4):
+    """helpers: name -> FunDef IR.  Every call of a helper is replaced by its body as an expression."""
+    if isinstance(t, list):
+        return [inline_calls(v, helpers, depth) for v in t]
+    if not isinstance(t, dict):
+        return t
+    if t.get("k") == "const":
+        return t
+    t = {k: inline_calls(v, helpers, depth) for k, v in t.items()}
+    if t.get("k") == "call" and t.get("f") in helpers and depth > 0:
+        h = helpers[t["f"]]
+        params = h["args"]
+        env = {}
+        pos = [a for a in t["args"] if not (a.get("k") == "call" and str(a.get("f", "")).startswith("="))]
+        kws = {a["f"][1:]: a["args"][0] for a in t["args"] if a.get("k") == "call" and str(a.get("f", "")).startswith("=")}
+        if len(pos) > len(params) or any(k not in params for k in kws):
+            return t
+        for p, a in zip(params, pos):
+            env[p] = a
+        for k2, v in kws.items():
+            if k2 in env:
+                return t
+            env[k2] = v
+        if set(env) != set(params):
+            return t  # defaults are not modelled
+        try:
+            body = inline_calls(strip_docstrings(h)["body"], helpers, depth - 1)
+            # names of the helper that are neither parameters nor assigned stay free on purpose (-> NameError in the model)
+            return block_to_expr(body, env)
+        except NotInlinable:
+            return t
+    return t
+
+
+def fundef_inlined(node, helper_nodes: dict) -> dict:
+    fd = strip_docstrings(fundef(node))
+    if not helper_nodes:
+        return fd
+    helpers = {name: fundef(n) for name, n in helper_nodes.items()}
+    return {**fd, "body": inline_calls(fd["body"], helpers)}
